@@ -73,6 +73,7 @@ fn dispatch(req: &J) -> J {
         "analyze" => analyze::handle(req),
         "disasm" => ops::disasm(req),
         "disasm_sweep" => ops::disasm_sweep(req),
+        "tc_layout" => ops::tc_layout(req),
         "fold" => ops::fold(req),
         "unify" => ops::unify(req),
         "merge_batch" => ops::merge_batch(req),
